@@ -1,14 +1,14 @@
 #!/bin/bash
 # usage: tools/seedconfirm.sh <ID> [srcdir]   – confirms a seeded change in a fresh scratch worktree and files it under /verif/seeded/<ID>/
 # Steps: demo passes on unchanged HEAD; patch applies; go build; existing tests of the touched packages (FULL=1: whole suite) pass; demo fails.
-id=$1; src=${2:-/tmp/seed-$id}
+id=$1; src=${2:-/tmp/seed-$id}; did=${3:-$id}
 V=$(cd "$(dirname "$0")/.." && pwd)
 export GOFLAGS=-mod=mod GOPROXY=off
-dst=$V/seeded/$id; mkdir -p $dst/demo
+dst=$V/seeded/$did; mkdir -p $dst/demo
 cp $src/PATCH.diff $dst/patch.diff || exit 3
 rm -rf $dst/demo; mkdir -p $dst/demo; cp -r $src/demo_seed/. $dst/demo/ 2>/dev/null
 cp $src/NOTES.md $dst/NOTES.md 2>/dev/null
-wt=/tmp/sc-$id-$$
+wt=/tmp/sc-$did-$$
 git -C /repo worktree add -q --detach $wt HEAD || exit 3
 mkdir -p $wt/demo_seed && cp -r $dst/demo/. $wt/demo_seed/
 cd $wt
@@ -24,7 +24,7 @@ go test -vet=off -count=1 ./demo_seed/... > $dst/demo_with_patch.log 2>&1; mut_r
 head_sha=$(git -C /repo rev-parse --short HEAD)
 cat > $dst/meta.json <<JSON
 {
- "id": "$id",
+ "id": "$did",
  "breaks_property": "${PROP:-$id}",
  "source": "independent sub-agent given only the property text and a scratch worktree",
  "confirmed_against_repo_head": "$head_sha",
@@ -41,6 +41,6 @@ cat > $dst/meta.json <<JSON
  "commands": "git worktree add; go test ./demo_seed/ (pass); git apply patch.diff; go build ./...; go test <touched pkgs>; go test ./demo_seed/ (fail)"
 }
 JSON
-echo "$id: demo-base rc=$base_rc build rc=$build_rc tests($tpk) rc=$test_rc demo-with-patch rc=$mut_rc"
+echo "$did: demo-base rc=$base_rc build rc=$build_rc tests($tpk) rc=$test_rc demo-with-patch rc=$mut_rc"
 if [ $test_rc -ne 0 ]; then echo "$tout" | grep -v "^ok" | tail -8; fi
 cd /; git -C /repo worktree remove --force $wt
